@@ -546,4 +546,72 @@ theorem parseRaw_inv {cfg : Cfg} (hs : cfg.strict = true) {bs : Bytes} {b : Bund
       rw [hs] at h1'
       exact ⟨decPrimary_inv h1', decBlocks_inv hs _ _ _ _ h2⟩
 
+/-! ### the fuel of the block loop is never the limiting factor -/
+
+theorem rawHead_block_len {maj : Nat} {bs : Bytes} {k : Nat → Bytes → CanonRes} {c : Canonical} {r : Bytes}
+    (h : rawHead maj bs k = .block c r) :
+    ∃ n r1, r1.length < bs.length ∧ k n r1 = .block c r := by
+  obtain ⟨n, r1, he, hk⟩ := rawHead_block h
+  exact ⟨n, r1, (decExpect_ok he).2.1, hk⟩
+
+theorem decCanonFields_block_len {cfg : Cfg} {bl : Nat} {r0 : Bytes} {k : Canonical → Bytes → CanonRes}
+    {c : Canonical} {r : Bytes} (h : decCanonFields cfg bl r0 k = .block c r) :
+    ∃ c' r1, r1.length < r0.length ∧ k c' r1 = .block c r := by
+  unfold decCanonFields at h
+  obtain ⟨_, r1, l1, h⟩ := rawHead_block_len h
+  obtain ⟨_, r2, l2, h⟩ := rawHead_block_len h
+  obtain ⟨_, r3, l3, h⟩ := rawHead_block_len h
+  obtain ⟨_, r4, l4, h⟩ := rawHead_block_len h
+  split at h
+  · simp at h
+  split at h
+  · simp at h
+  rename_i data r5 hd
+  split at h
+  · simp at h
+  exact ⟨_, r5, by have := (decBytes_ok hd).2; omega, h⟩
+
+/-- A successfully read block consumes at least one byte. -/
+theorem decCanon_block_len {cfg : Cfg} {bs : Bytes} {c : Canonical} {r : Bytes}
+    (h : decCanon cfg bs = .block c r) : r.length < bs.length := by
+  unfold decCanon at h
+  obtain ⟨bl, r0, l0, h⟩ := rawHead_block_len h
+  split at h
+  · simp at h
+  obtain ⟨c', r1, l1, h⟩ := decCanonFields_block_len h
+  split at h
+  · split at h
+    · simp at h
+    · obtain ⟨n, r2, l2, h⟩ := rawHead_block_len h
+      split at h
+      · simp at h
+      · rename_i cv r' hr
+        split at h
+        · simp only [CanonRes.block.injEq] at h
+          obtain ⟨_, _, hcat⟩ := readRaw_ok hr
+          have : r2.length = cv.length + r'.length := by rw [hcat, List.length_append]
+          rw [← h.2]; omega
+        · simp at h
+  · simp only [CanonRes.block.injEq] at h
+    rw [← h.2]; omega
+
+/-- **Fuel independence**: with more fuel than input bytes the block loop is the unbounded loop of
+`Bundle.UnmarshalCbor` — its result does not depend on the amount of fuel. -/
+theorem decBlocks_fuel (cfg : Cfg) (f1 f2 : Nat) (bs : Bytes) (h1 : bs.length < f1) (h2 : bs.length < f2) :
+    decBlocks cfg f1 bs = decBlocks cfg f2 bs := by
+  induction f1 generalizing f2 bs with
+  | zero => omega
+  | succ f1 ih =>
+    cases f2 with
+    | zero => omega
+    | succ f2 =>
+      simp only [decBlocks]
+      cases hc : decCanon cfg bs with
+      | brk r => rfl
+      | err e => rfl
+      | block c r =>
+        have hl := decCanon_block_len hc
+        simp only
+        rw [ih f2 r (by omega) (by omega)]
+
 end Dtn7.Bundle.Lemmas
